@@ -36,11 +36,11 @@ Ltac break_if :=
 Ltac step_cbn :=
   cbn [cctx cres begun req_sent req_closed cancel_notified cancels_sent resp_read
        relay_alive conn_failed resp_avail resp_final hstarted hctx mex_reg resp_failed
-       resp_done requested honored
+       resp_done requested honored dl_passed
        set_cctx set_cres set_begun set_req_sent set_req_closed set_cancel_notified
        set_cancels_sent set_resp_read set_relay_alive set_conn_failed set_resp_avail
        set_resp_final set_hstarted set_hctx set_mex_reg set_resp_failed set_resp_done
-       set_requested set_honored negb andb orb] in *.
+       set_requested set_honored set_dl_passed negb andb orb] in *.
 
 Ltac step_cases s l :=
   destruct l;
@@ -87,7 +87,8 @@ Definition causes_ok (c : cfg) (ls : list label) (s : st) : Prop :=
   (cctx s = 0 \/ cctx s = 1 \/ cctx s = 2) /\
   (cctx s = 1 -> In LDeadline ls) /\ (cctx s = 2 -> In LCancel ls) /\
   (cres s = Some c_ErrCodeTimeout -> In LDeadline ls) /\
-  (cres s = Some c_ErrCodeCancelled -> In LCancel ls).
+  (cres s = Some c_ErrCodeCancelled -> In LCancel ls) /\
+  (dl_passed s = true -> In LDeadline ls).
 
 Lemma all_on_intro c : send_cancel c = true -> all_true (hops c) = true -> srv_prop c = true -> all_on c = true.
 Proof. unfold all_on. intros -> -> ->. reflexivity. Qed.
@@ -103,7 +104,7 @@ Proof. intros [->| ->]; [left|right]; split; reflexivity. Qed.
 
 Lemma causes_step c ls s l : causes_ok c ls s -> causes_ok c (ls ++ [l]) (step c s l).
 Proof.
-  unfold causes_ok. intros [P1 [P2 [P3 [P4 [P5 [P6 [P7 P8]]]]]]].
+  unfold causes_ok. intros [P1 [P2 [P3 [P4 [P5 [P6 [P7 [P8 P9]]]]]]]].
   step_cases s l; bool_norm;
     (repeat split; intros;
      rewrite ?in_snoc;
